@@ -190,7 +190,12 @@ def log_checksum(calls):
     return h
 
 
-def pw_request(spec, rec):
+def pwb_request(spec, rec):
+    """Powell replayed from the initial guess ALONE: the Brent line search is the Lean model (Model/Brent.lean)"""
+    return pw_request(spec, rec, brent=True)
+
+
+def pw_request(spec, rec, brent=False):
     """Powell replayed from the initial guess and the RECORDED line searches (which points Brent evaluated, which one
     it returned): everything else - constraints, box test, cost, penalty, delta/bigind bookkeeping, extrapolation
     test, direction replacement, step records, evaluation log - is recomputed by the model and compared."""
@@ -221,21 +226,27 @@ def pw_request(spec, rec):
         recs.append("((pre (%s)) (y %s) (post (%s)) (xi %s))" % (" ".join(fl(z) for z, _ in pts[:idx]), fl(xn),
                                                                 " ".join(fl(z) for z, _ in pts[idx + 1:]), fl(xin)))
     record = not (spec.get("limits") is not None and spec["limits"][0] == 0)
-    line = "C01 pw %s (x0 %s) (record %s) (steps %d) (ls (%s))" % (setup_sexp(spec), fl(spec["x0"]), "true" if record else "false",
-                                                                     len(snaps), " ".join(recs))
+    if brent:
+        pre_findings = []      # the oracle contract is the recorded-oracle replay's business
+        line = "C01 pw %s (x0 %s) (record %s) (steps %d) (brent true) (tol %s) (imax %d)" % (
+            setup_sexp(spec), fl(spec["x0"]), "true" if record else "false", len(snaps), f2b(1e-4 * 100), 500)
+    else:
+        line = "C01 pw %s (x0 %s) (record %s) (steps %d) (ls (%s))" % (setup_sexp(spec), fl(spec["x0"]), "true" if record else "false",
+                                                                         len(snaps), " ".join(recs))
+    tagp = "PowellBrent" if brent else "Powell"
     scalar = spec["cost"][0] == "scalar"
 
     def compare(reply):
         out = list(pre_findings)
         r = common.parse_reply(reply)
         if r[0] != "ok":
-            return out + [("Powell/model-%s" % r[0], "model replied %r" % (reply[:200],))]
+            return out + [("%s/model-%s" % (tagp, r[0]), "model replied %r" % (reply[:200],))]
         steps = []
         for st in r[1]["steps"]:
             toks = list(st)
             steps.append({toks[i]: toks[i + 1] for i in range(0, len(toks) - 1, 2)})
         if len(steps) != len(snaps):
-            return out + [("Powell/model-step-count", "model ran %d steps, implementation %d" % (len(steps), len(snaps)))]
+            return out + [("%s/model-step-count" % tagp, "model ran %d steps, implementation %d" % (len(steps), len(snaps)))]
         for k, (st, sn) in enumerate(zip(steps, snaps)):
             diffs = []
             if not same_vec(fvec(st["x"]), sn["bestSolution"]):
@@ -250,13 +261,13 @@ def pw_request(spec, rec):
             if int(st["nls"]) != sn["n_ls"]:
                 diffs.append("line searches model=%s impl=%d" % (st["nls"], sn["n_ls"]))
             if diffs:
-                out.append(("Powell/step-diverges", "generation %d: %s" % (k, "; ".join(diffs)[:600])))
+                out.append(("%s/step-diverges" % tagp, "generation %d: %s" % (k, "; ".join(diffs)[:600])))
                 return out
         # the model asked for exactly the searches the implementation made
         reqs = r[1]["reqs"]
         if len(reqs) != len(lss) or not all(same_vec(fvec(q[0]), l[0]) and same_vec(fvec(q[1]), l[1]) for q, l in zip(reqs, lss)):
             bad = next((i for i, (q, l) in enumerate(zip(reqs, lss)) if not (same_vec(fvec(q[0]), l[0]) and same_vec(fvec(q[1]), l[1]))), min(len(reqs), len(lss)))
-            out.append(("Powell/linesearch-requests-diverge", "model requested %d searches, implementation %d; first difference at #%d" % (len(reqs), len(lss), bad)))
+            out.append(("%s/linesearch-requests-diverge" % tagp, "model requested %d searches, implementation %d; first difference at #%d" % (len(reqs), len(lss), bad)))
             return out
         sl = r[1]["steplog"]
         stopped = last["ret"] is not None
@@ -264,13 +275,13 @@ def pw_request(spec, rec):
         if stopped and nrec == len(sl) + 1 and same_vec(last["stepmon_x"][-1], last["bestSolution"]) and same_float(last["stepmon_y"][-1], last["bestEnergy"]):
             nrec = len(sl)          # Finalize's record (bestSolution, bestEnergy)
         if len(sl) != nrec or not all(same_vec(fvec(a[0]), x) and same_float(b2f(a[1]), y) for a, x, y in zip(sl, last["stepmon_x"], last["stepmon_y"])):
-            out.append(("Powell/step-monitor-diverges", "model step log %r != implementation %r" % ([(fvec(a[0]), b2f(a[1])) for a in sl][-3:], list(zip(last["stepmon_x"], last["stepmon_y"]))[-3:])))
+            out.append(("%s/step-monitor-diverges" % tagp, "model step log %r != implementation %r" % ([(fvec(a[0]), b2f(a[1])) for a in sl][-3:], list(zip(last["stepmon_x"], last["stepmon_y"]))[-3:])))
         if not stopped and not same_vec(fvec(r[1]["hist"]), last["energy_history"]):
-            out.append(("Powell/energy-history-diverges", "model %r != implementation %r" % (fvec(r[1]["hist"])[-4:], last["energy_history"][-4:])))
+            out.append(("%s/energy-history-diverges" % tagp, "model %r != implementation %r" % (fvec(r[1]["hist"])[-4:], last["energy_history"][-4:])))
         if scalar:
             want = log_checksum(rec.cost_calls[:last["n_cost_calls"]])
             if int(r[1]["logsum"]) != want:
-                out.append(("Powell/evaluation-log-diverges", "the sequence of (x, cost x) the model evaluates differs from the %d real cost calls" % last["n_cost_calls"]))
+                out.append(("%s/evaluation-log-diverges" % tagp, "the sequence of (x, cost x) the model evaluates differs from the %d real cost calls" % last["n_cost_calls"]))
         return out
     return line, compare
 
